@@ -144,6 +144,33 @@ theorem Store.nodup_erase {s : Store} (h : s.keys.Nodup) (k : Key) : (s.erase k)
   rw [Store.keys_erase]
   exact h.sublist List.filter_sublist
 
+theorem lookupMeta_setMeta_eq (l : List (Key × SprayMeta)) (k : Key) (m : SprayMeta) :
+    lookupMeta (setMeta l k m) k = some m := by
+  induction l with
+  | nil => simp [setMeta, lookupMeta]
+  | cons p l ih =>
+    obtain ⟨a, m'⟩ := p
+    by_cases h : a = k
+    · simp [setMeta, lookupMeta, h]
+    · simp [setMeta, lookupMeta, h, ih]
+
+theorem lookupMeta_setMeta_ne (l : List (Key × SprayMeta)) (k k' : Key) (m : SprayMeta) (h : k' ≠ k) :
+    lookupMeta (setMeta l k m) k' = lookupMeta l k' := by
+  induction l with
+  | nil =>
+    have : ¬ k = k' := fun e => h e.symm
+    simp [setMeta, lookupMeta, this]
+  | cons p l ih =>
+    obtain ⟨a, m'⟩ := p
+    by_cases h1 : a = k
+    · subst h1
+      have : ¬ a = k' := fun e => h e.symm
+      simp [setMeta, lookupMeta, this]
+    · by_cases h2 : a = k'
+      · subst h2
+        simp [setMeta, lookupMeta, h1]
+      · simp [setMeta, lookupMeta, h1, h2, ih]
+
 /-! ## What every store operation leaves alone -/
 
 /-- Configuration, peers, clock and event counter are the same. -/
@@ -162,14 +189,16 @@ theorem SameEnv.trans {a b c : Node} (h1 : SameEnv a b) (h2 : SameEnv b c) : Sam
 structure OnlyKey (k : Key) (n n' : Node) : Prop where
   env : SameEnv n n'
   other : ∀ k', k' ≠ k → n'.store.get k' = n.store.get k'
+  spray : ∀ k', k' ≠ k → lookupMeta n'.spray k' = lookupMeta n.spray k'
 
-theorem OnlyKey.refl (k : Key) (n : Node) : OnlyKey k n n := ⟨SameEnv.refl n, fun _ _ => rfl⟩
+theorem OnlyKey.refl (k : Key) (n : Node) : OnlyKey k n n := ⟨SameEnv.refl n, fun _ _ => rfl, fun _ _ => rfl⟩
 
 theorem OnlyKey.trans {k : Key} {a b c : Node} (h1 : OnlyKey k a b) (h2 : OnlyKey k b c) : OnlyKey k a c :=
-  ⟨h1.env.trans h2.env, fun k' hk => (h2.other k' hk).trans (h1.other k' hk)⟩
+  ⟨h1.env.trans h2.env, fun k' hk => (h2.other k' hk).trans (h1.other k' hk),
+   fun k' hk => (h2.spray k' hk).trans (h1.spray k' hk)⟩
 
 theorem onlyKey_setStore (k : Key) (n : Node) (s : Store) (h : ∀ k', k' ≠ k → s.get k' = n.store.get k') :
-    OnlyKey k n { n with store := s } := ⟨⟨rfl, rfl, rfl, rfl⟩, h⟩
+    OnlyKey k n { n with store := s } := ⟨⟨rfl, rfl, rfl, rfl⟩, h, fun _ _ => rfl⟩
 
 theorem onlyKey_setItem (k : Key) (n : Node) (it : Item) : OnlyKey k n (n.setItem k it) :=
   onlyKey_setStore k n _ (fun k' hk => Store.get_set_ne _ _ _ _ hk)
@@ -177,12 +206,12 @@ theorem onlyKey_setItem (k : Key) (n : Node) (it : Item) : OnlyKey k n (n.setIte
 theorem onlyKey_erase (k : Key) (n : Node) : OnlyKey k n { n with store := n.store.erase k } :=
   onlyKey_setStore k n _ (fun k' hk => Store.get_erase_ne _ _ _ hk)
 
-theorem onlyKey_spray (k : Key) (n : Node) (sp : List (Key × SprayMeta)) : OnlyKey k n { n with spray := sp } :=
-  ⟨⟨rfl, rfl, rfl, rfl⟩, fun _ _ => rfl⟩
+theorem onlyKey_spray (k : Key) (n : Node) (m : SprayMeta) : OnlyKey k n { n with spray := setMeta n.spray k m } :=
+  ⟨⟨rfl, rfl, rfl, rfl⟩, fun _ _ => rfl, fun k' hk => lookupMeta_setMeta_ne _ _ _ _ hk⟩
 
 theorem onlyKey_attempts (k : Key) (n : Node) (a : List ((Nat × Nat) × Nat)) :
     OnlyKey k n { n with attempts := a } :=
-  ⟨⟨rfl, rfl, rfl, rfl⟩, fun _ _ => rfl⟩
+  ⟨⟨rfl, rfl, rfl, rfl⟩, fun _ _ => rfl, fun _ _ => rfl⟩
 
 /-! ## modItem / modRt -/
 
@@ -411,8 +440,8 @@ theorem rtStep_modItem (k : Key) (f : Item → Item) (n : Node)
 theorem rtStep_modRt (k : Key) (f : Routing → Routing) (n : Node) : RtStep k n (modRt k f n) :=
   rtStep_modItem k _ n (fun _ => ⟨rfl, rfl, rfl, rfl, id⟩)
 
-theorem rtStep_spray (k : Key) (n : Node) (sp : List (Key × SprayMeta)) : RtStep k n { n with spray := sp } :=
-  ⟨onlyKey_spray k n sp, fun it h => ⟨it, h, rfl, rfl, rfl, rfl, id⟩, id, rfl, rfl⟩
+theorem rtStep_spray (k : Key) (n : Node) (m : SprayMeta) : RtStep k n { n with spray := setMeta n.spray k m } :=
+  ⟨onlyKey_spray k n m, fun it h => ⟨it, h, rfl, rfl, rfl, rfl, id⟩, id, rfl, rfl⟩
 
 theorem rtStep_attempts (k : Key) (n : Node) (a : List ((Nat × Nat) × Nat)) :
     RtStep k n { n with attempts := a } :=
